@@ -362,6 +362,19 @@ struct Runner
                     Elem mine(sh.elem);
                     mine = sh.elem;
                     h = digest_ref(mine, h, Idx{});
+                    {
+                        // private vectors (their allocators share no state with the shared vectors') are copy-assigned
+                        // from the shared const vectors: into a copy of the other vector (larger or smaller block) and
+                        // into a default-constructed one
+                        Vec q(b);
+                        q = a;
+                        h = digest_vec(q, h);
+                        Vec r;
+                        r = b;
+                        h = mix(h, (r == b) ? 1 : 0);
+                        q = r;
+                        h = mix(h, q.size());
+                    }
                     if (!a.empty())
                     {
                         Elem other(a[0]);
